@@ -7,6 +7,11 @@
 #ifndef N
 #define N 3
 #endif
+#ifdef CTOR
+#define KFIELD k_csv_field_ctor
+#else
+#define KFIELD k_csv_field
+#endif
 INPUT_ARR(u8, IN_s, N) INPUT(u32, IN_style) INPUT(u32, IN_delim) INPUT(u32, IN_quote) INPUT(u32, IN_esc)
 enum { QS_MINIMAL = 0, QS_ALL = 1, QS_NONNUMERIC = 2, QS_NONE = 3 };
 HARNESS(h_field) {
@@ -17,8 +22,7 @@ HARNESS(h_field) {
   u8* s = malloc(N ? N : 1); ASSUME(s != 0); if (N) memcpy(s, IN_s, N);
   int has_special = 0, has_esc = 0;
   for (int i = 0; i < N; i++) { u8 c = s[i]; if (c == IN_delim || c == IN_quote || c == '\r' || c == '\n') has_special = 1; if (c == IN_esc) has_esc = 1; }
-  ASSUME(IN_esc == IN_quote || !has_esc);                  /* a distinct escape character occurring in the data is outside the claim (see DESIGN C18) */
-  u8 out[2 * N + 4]; u64 w = k_csv_field(s, N, IN_style, (u8)IN_delim, (u8)IN_quote, (u8)IN_esc, out, 2 * N + 4);
+  u8 out[2 * N + 4]; memset(out, 0, sizeof out); u64 w = KFIELD(s, N, IN_style, (u8)IN_delim, (u8)IN_quote, (u8)IN_esc, out, 2 * N + 4);
   P(w <= 2 * N + 2, "output length bounded by 2n+2"); ASSUME(w <= 2 * N + 2);
   int quoted = w >= 2 && out[0] == IN_quote && out[w - 1] == IN_quote && (IN_style != QS_MINIMAL || has_special || 1);
   if (IN_style == QS_ALL || IN_style == QS_NONNUMERIC) P(w >= 2 && out[0] == IN_quote && out[w - 1] == IN_quote, "styles all/nonnumeric always quote strings");
@@ -28,7 +32,8 @@ HARNESS(h_field) {
   u64 p = isq ? 1 : 0, end = isq ? w - 1 : w; int ok = 1;
   if (isq && w < 2) ok = 0;
   for (int i = 0; i < N; i++) { if (!ok) break; if (p >= end) { ok = 0; break; } u8 c = out[p];
-    if (isq && c == IN_esc && p + 1 < end && out[p + 1] == IN_quote) { c = (u8)IN_quote; p += 2; }
+    if (isq && c == IN_esc && p + 1 < end && (out[p + 1] == IN_quote || out[p + 1] == IN_esc)) { c = out[p + 1]; p += 2; }   /* escape + quote, or (distinct escape character) escape + escape */
+    else if (isq && c == IN_esc && IN_esc != IN_quote) { ok = 0; break; }   /* a lone escape character inside quotes cannot be read back */
     else { if (isq && c == IN_quote) { ok = 0; break; } p += 1; }
     if (c != s[i]) ok = 0; }
   P(ok && p == end, "un-quoting the written field gives back the field");
